@@ -1748,6 +1748,33 @@ def cfi_section(le, asz, cie_instrs, fde_instrs, version=1, code_align=1, data_a
     return out + entry(fde)
 
 
+def cfi_multi(le, asz, entries):
+    """.debug_frame (32-bit DWARF, version-1 CIEs) with several CIEs and FDEs in the given order.  entries: ('cie', key, code_align,
+    data_align, ra, instrs) | ('fde', key of its CIE, pc, size, instrs); an FDE may precede or follow any other entry - its CIE_pointer is
+    the section offset of its CIE, wherever that lies."""
+    from vf.enc.leb import uleb, sleb
+    bo = 'little' if le else 'big'
+    bodies = []
+    for e in entries:
+        if e[0] == 'cie':
+            body = b'\xff\xff\xff\xff' + b'\x01\0' + uleb(e[2]) + sleb(e[3]) + bytes([e[4]]) + bytes(e[5])
+        else:
+            body = b'PTR!' + e[2].to_bytes(asz, bo) + e[3].to_bytes(asz, bo) + bytes(e[4])
+        body += b'\0' * (-(4 + len(body)) % asz)
+        bodies.append(body)
+    offs, pos = {}, 0
+    for e, b in zip(entries, bodies):
+        if e[0] == 'cie':
+            offs[e[1]] = pos
+        pos += 4 + len(b)
+    out = b''
+    for e, b in zip(entries, bodies):
+        if e[0] == 'fde':
+            b = offs[e[1]].to_bytes(4, bo) + b[4:]
+        out += len(b).to_bytes(4, bo) + b
+    return out
+
+
 def cfa_cases():
     core.use_repo()
     import elftools.dwarf.constants as dco
@@ -1792,6 +1819,22 @@ def cfa_cases():
                 for opt in ('--debug-dump=frames', '--debug-dump=frames-interp'):
                     out.append(synth(opt, 'dw_cfa|m=%s|%s(0x%x)' % (mname, nm, code) if code == 0x2d else 'dw_cfa|%s(0x%x)' % (nm, code),
                                      {'after': r'\bfde\b'}, model))
+        # several CIEs that differ in every parameter an FDE takes from its CIE (return-address column, alignment factors, initial rules),
+        # with the FDEs in every position relative to them: directly behind their CIE, behind the other CIE, in front of their CIE
+        if mname != 'EM_AARCH64':
+            cA = ('cie', 'A', 1, da, ra, cie_instrs)
+            cB = ('cie', 'B', 4, 2 * da, rA, b'\x0c' + U(cfa_reg) + U(-2 * da) + bytes([0x80 | rA]) + U(1) + bytes([0x80 | rB]) + U(2))
+            body = adv + b'\x0e' + U(16) + adv + bytes([0x80 | rB]) + U(3) + adv + bytes([0xc0 | rB])
+
+            def fde(k, n):
+                return ('fde', k, 0x401000 + 0x100 * n, 0x40, body)
+            orders = {'own-cie-first': [cA, fde('A', 0), cB, fde('B', 1)], 'back-reference': [cA, fde('A', 0), cB, fde('B', 1), fde('A', 2)],
+                      'both-cies-first': [cA, cB, fde('A', 0), fde('B', 1), fde('A', 2)], 'other-cie-between': [cA, cB, fde('A', 0)],
+                      'swapped': [cB, cA, fde('B', 0), fde('A', 1), fde('B', 2)]}
+            for oname, ents in sorted(orders.items()):
+                model = dw_elf(info, cls=cls, machine=m, extra={'.debug_frame': cfi_multi(le, asz, ents)})
+                for opt in ('--debug-dump=frames', '--debug-dump=frames-interp'):
+                    out.append(synth(opt, 'dw_cfa|several-cies|%s' % oname, {'after': r'\bcie\b'}, model))
         # every ordered pair of location-changing instructions (the running location printed after "to" is carried state), then two rules
         if mname != 'EM_AARCH64':
             locops = [('set_loc', None), ('advance_loc', b'\x48'), ('advance_loc1', b'\x02\x10'), ('advance_loc2', b'\x03' + (0x110).to_bytes(2, 'little')),
